@@ -200,6 +200,8 @@ def code_points(ex, cprog):
             out.append(("jmpcond", variant(ex, f[0]) == "True", f[1].concrete()))
         elif k == "Label":
             out.append(("label", f[0].concrete()))
+        else:
+            out.append(("op", "?unknown code point " + repr(cp)[:60], []))
     return ("code", out)
 
 
